@@ -408,6 +408,9 @@ where
     ) -> Result<Running, SessionInnerError> {
         match self.session.local_state() {
             SessionState::Mapped => {}
+            // The remote peer has ended the session and the link frames that were already
+            // queued are being flushed before the End is answered
+            SessionState::EndReceived => {}
             _ => return Err(SessionInnerError::IllegalState), // End session with illegal state
         }
 
